@@ -155,6 +155,18 @@ theorem replace_with_many_effect {h h' : Heap} {x p : Nat} {ys pre post : List N
     h'.kids p = pre.filter (fun k => !ys.contains k) ++ ys ++ post.filter (fun k => !ys.contains k) ∧ h'.parent x = none :=
   BS.Heap.replaceWith_many_effect hg hp hnd hxy hpy hk hne hsplit hr
 
+/-- **a whole BeautifulSoup object as the argument of `insert`** (element.py:1943-1948: "we don't want one BeautifulSoup object to
+    contain another"): its children — all of them, in order — are moved to the slot, contiguously; the object itself stays
+    where it was, childless; the other children of the target keep their order -/
+theorem insert_soup_effect {h h' : Heap} {p s position : Nat} {ins : List Nat} (hg : Good2 h) (hp : (h.kind p).isTag = true)
+    (hs : h.kind s = .soup) (hsp : s ≠ p) (hpos : position ≤ (h.kids p).length)
+    (hi : insert h p position [.node s] = .ok (h', ins)) :
+    ins = h.kids s ∧
+    h'.kids p = ((h.kids p).take position).filter (fun k => !(h.kids s).contains k) ++ h.kids s ++
+                ((h.kids p).drop position).filter (fun k => !(h.kids s).contains k) ∧
+    h'.kids s = [] :=
+  BS.Heap.insert_soup_effect hg hp hs hsp hpos hi
+
 /-! ### negative positions: `insert` reads its position the way `list.insert` does -/
 
 /-- a non-negative position is itself -/
@@ -193,6 +205,11 @@ example : (wFour.bind fun h => (replaceWith h 2 [.node 4, .node 1]).map (fun h =
 example : (wFour.bind fun h => (insertZ h 0 (-1) [.node 1]).map (·.1.kids 0)).toOption = some [2, 3, 1, 4] := by decide
 example : (wFour.bind fun h => (insertZ h 0 (-4) [.node 4]).map (·.1.kids 0)).toOption = some [4, 1, 2, 3] := by decide
 example : (wFour.bind fun h => (insertZ h 0 (-9) [.node 3]).map (·.1.kids 0)).toOption = some [3, 1, 2, 4] := by decide
+def wSoup : Except Err Heap :=
+  run (Heap.init [.tag, .tag, .tag, .soup, .tag, .tag])
+    [.append 0 (.node 1), .append 0 (.node 2), .append 3 (.node 4), .append 3 (.node 5)]
+example : (wSoup.bind fun h => (insert h 0 1 [.node 3]).map (fun r => (r.1.kids 0, r.1.kids 3, r.2))).toOption
+    = some ([1, 4, 5, 2], [], [4, 5]) := by decide
 def wFive : Except Err Heap :=
   run (Heap.init [.tag, .tag, .tag, .tag, .tag, .tag])
     [.append 0 (.node 1), .append 0 (.node 2), .append 0 (.node 3), .append 5 (.node 4)]
